@@ -72,7 +72,7 @@ CHECKS = {
          "DESIGN.md section 5, C19"),
  "C17": ("de_reuse_sim", "exploration",
          "deterministic simulation: twin executions of the same seeded refinement history with the caches on / off and with the size threshold moved through the guarded hook so that both implementations run on the same grids",
-         "Seeded search over data sets (on grid lines / boundary, class labels), lambda, mass lumping, analytic (rarely numeric) entries and benefit schedules of the real dimension-wise loop. For every schedule five executions are compared after every evaluation (scheme, surpluses per component grid, interpolated densities): reuse off vs on (default threshold; a share of configurations reaches component grids beyond 200 points), small-grid vs large-grid implementation everywhere (threshold moved by SPARSESPACE_VERIF_DE_THRESHOLD), and reuse on with the right-hand-side reuse path forced. The broken right-hand-side reuse path is a known finding keyed by 'path active'; the matrix-entry cache and the implementation equivalence stay fully armed.",
+         "Seeded search over data sets (on grid lines / boundary, class labels), lambda, mass lumping, analytic (rarely numeric) entries and benefit schedules of the real dimension-wise loop. For every schedule five executions are compared after every evaluation (scheme, surpluses per component grid, interpolated densities): reuse off vs on (default threshold; a share of configurations reaches component grids beyond 200 points), small-grid vs large-grid implementation everywhere (threshold moved by SPARSESPACE_VERIF_DE_THRESHOLD), and reuse on with the right-hand-side reuse path forced. The right-hand-side reuse path was repaired in /repo (two fix: commits, see known_findings.txt) and is compared at full strength like the matrix-entry cache and the implementation equivalence; no known finding is listed for this property.",
          "Trusted: the reuse-off run as reference (its correctness is C16's subject, not applicable here). Bound 1e-8 relative for analytic entries, 2e-2 for numeric entries (calibrated quadrature accuracy).",
          "DESIGN.md section 5, C17"),
  "C15": ("uq_sim", "exploration",
